@@ -780,6 +780,12 @@ func (indexsigSuite) Run(raw json.RawMessage) []Step {
 		for _, st := range c.Steps {
 			steps = append(steps, isParseOne(b, st, what, tags)...)
 			steps = append(steps, isCheckStep(st))
+			// the same call against the regenerated translation of the Go function (extract/trans.go)
+			ts := isCheckStep(st)
+			ts.Line = "ti" + strings.TrimPrefix(ts.Line, "is")
+			ts.Desc = "translated " + ts.Desc
+			ts.Tags = []string{"ti.check:" + ts.Go}
+			steps = append(steps, ts)
 		}
 		seenKeys := map[string]bool{}
 		for _, st := range c.Steps {
